@@ -18,7 +18,9 @@ func runLoss(tier string, seed int64, shard, nshard int, r *res.Result) {
 	r.Rule = "streams of n datagrams (sizes 0..1500, unique ids) injected into a LossFilter in front of a recording sink NIC; chances incl. out-of-range values; oracle: deterministic ends, 6-sigma binomial bound in between for the whole stream and for every k-th-datagram sub-stream (k = 2,3,4,5,8: what one of k interleaved flows sees), forwarded = in-order duplicate-free unmodified subsequence (same chunk object, same addresses, same payload hash); the same for 12 pairs of loss filters in series and for six filters used at the same time from six goroutines (incl. out-of-range chances); distinct = (chance, stream) pairs"
 	r.Assumptions = []string{"math/rand global source cannot be seeded from outside: verdict for 0<chance<100 is statistical (false-alarm probability about 2e-9 per stream or sub-stream, 23 bounds per chance value)"}
 	// every chance value 0..100 plus out-of-range ones: a bias may exist for particular values only
-	chances := []int{-5, 101, 250}
+	// out-of-range values at the edges of what an int holds as well: "100 or more" has no upper end, and a negative chance
+	// is below every draw
+	chances := []int{-5, 101, 250, 1<<31 - 1, 1 << 31, 1<<31 + 60, 1 << 32, 1<<32 + 50, 1 << 40, math.MaxInt64, math.MinInt64, -(1 << 31), -(1 << 32) + 50, 65536 + 30, 256 + 40}
 	for c := 0; c <= 100; c++ {
 		chances = append(chances, c)
 	}
